@@ -344,9 +344,17 @@ pub fn gen_grammar_idiom(rng: &mut Rng, cfg: &GenCfg, k: usize) -> Vec<Rule> {
             let nm = format!("sk{}", rules.len());
             rules.push(Rule { name: nm.clone(), ty: RuleType::Atomic, expr: Expr::Rep(bx(Expr::Seq(bx(Expr::NegPred(bx(e.clone()))), bx(Expr::Ident("ANY".into()))))) });
             Expr::Seq(bx(Expr::Ident(nm)), bx(Expr::Opt(bx(e)))) }
-        4 if !later.is_empty() => { let r = Expr::Ident(rng.pick(&later[..]).clone());
+        4 => { // two fresh non-silent rules with different literals: one under the predicate, one tried at the same position after it
+            let (l1, l2) = *rng.pick(&[("a", "b"), ("b", "a"), ("a", "ab"), ("ab", "c"), ("c", "a")]);
+            let kw = format!("kw{}", rules.len()); let ot = format!("ot{}", rules.len());
+            rules.push(Rule { name: kw.clone(), ty: *rng.pick(&[RuleType::Normal, RuleType::Normal, RuleType::Atomic]), expr: Expr::Str(l1.into()) });
+            rules.push(Rule { name: ot.clone(), ty: RuleType::Normal, expr: if rng.chance(1, 2) { Expr::Str(l2.into()) } else { Expr::Seq(bx(Expr::Str(l2.into())), bx(Expr::Str("c".into()))) } });
+            let r = Expr::Ident(kw);
             let p = match rng.below(5) { 0 | 1 => Expr::NegPred(bx(r)), 2 => Expr::PosPred(bx(r)), 3 => Expr::NegPred(bx(Expr::PosPred(bx(r)))), _ => Expr::NegPred(bx(Expr::NegPred(bx(r)))) };
-            Expr::Seq(bx(p), bx(if rng.chance(1, 2) { Expr::Ident("ANY".into()) } else { s(rng) })) }
+            let guarded = Expr::Seq(bx(p), bx(if rng.chance(1, 2) { Expr::Ident("ANY".into()) } else { s(rng) }));
+            if rng.chance(3, 4) { rules[0].ty = *rng.pick(&[RuleType::Normal, RuleType::Normal, RuleType::NonAtomic]); }
+            // often with a second rule tried at the same position (two attempts inside the enclosing rule, one of them under a predicate)
+            if rng.chance(2, 3) { Expr::Choice(bx(guarded), bx(Expr::Ident(ot))) } else { guarded } }
         5 if !later.is_empty() => { let a = Expr::Ident(rng.pick(&later[..]).clone()); let b = Expr::Ident(rng.pick(&later[..]).clone());
             Expr::Rep(bx(Expr::Choice(bx(a), bx(Expr::Choice(bx(b), bx(Expr::Ident("ANY".into()))))))) }
         // tags on an optional / repeated rule reference, after another pair (grammar-extras)
